@@ -2,6 +2,10 @@ package exec
 
 import (
 	"context"
+	"encoding/binary"
+	"time"
+
+	"github.com/olric-data/olric"
 	"encoding/json"
 	"strconv"
 	"strings"
@@ -35,6 +39,8 @@ func (r *Run) doCtlExtra(sc *plan.Script, op *plan.Op, rec *plan.Rec) bool {
 	switch op.K {
 	case "ctl.snapshot":
 		rec.Snap = r.Snapshot(op.Flag)
+	case "ctl.plant":
+		r.plant(op, rec)
 	case "ctl.rawscan":
 		r.rawScan(op, rec)
 	case "ctl.cut_backups":
@@ -328,4 +334,84 @@ func fmtAny(v interface{}) string {
 		return strconv.FormatInt(x, 10)
 	}
 	return ""
+}
+
+// encodeEntry renders an entry in the replication wire format.
+func encodeEntry(key, val string, ttl, ts int64) []byte {
+	b := make([]byte, 0, 1+len(key)+28+len(val))
+	b = append(b, byte(len(key)))
+	b = append(b, key...)
+	var u [8]byte
+	for _, v := range []int64{ttl, ts, 0} {
+		binary.BigEndian.PutUint64(u[:], uint64(v))
+		b = append(b, u[:]...)
+	}
+	var l [4]byte
+	binary.BigEndian.PutUint32(l[:], uint32(len(val)))
+	b = append(b, l[:]...)
+	return append(b, val...)
+}
+
+// plant creates conflicting copies (C06). Tag: "backup" (DM.PUTENTRY to the (M mod n)-th backup
+// owner), "delbackup" (DM.DELENTRY RC there), "merge" / "mergebackup" (a fragment pack with the
+// entries Key and Keys delivered with INTERNAL.NODE.MOVEFRAGMENT to the primary / a backup owner,
+// Count times). The timestamp is the newest existing copy's timestamp plus Delta (ns).
+func (r *Run) plant(op *plan.Op, rec *plan.Rec) {
+	dmn := op.DM
+	if dmn == "" {
+		dmn = r.P.DMap
+	}
+	ctx := context.Background()
+	run := r.C.Running()
+	rt := run[0].DB.VerifLocalRouting()
+	part := HKey(dmn, op.Key) % r.partitions()
+	route := rt[part]
+	base := int64(0)
+	for _, c := range r.Copies(dmn, op.Key) {
+		if c.Found && c.TS > base {
+			base = c.TS
+		}
+	}
+	if base == 0 {
+		base = time.Now().UnixNano()
+	}
+	ts := base + op.Delta
+	rec.TS = ts
+	owner := clusterIdx(route.PrimaryOwners[len(route.PrimaryOwners)-1])
+	target := owner
+	if op.Tag == "backup" || op.Tag == "delbackup" || op.Tag == "mergebackup" {
+		if len(route.ReplicaOwners) == 0 {
+			rec.Err = "skipped"
+			return
+		}
+		target = clusterIdx(route.ReplicaOwners[op.M%len(route.ReplicaOwners)])
+	}
+	rec.Int = int64(target)
+	rdb := r.ctlRaw(target)
+	switch op.Tag {
+	case "backup":
+		rec.Err = Classify(rdb.Do(ctx, "DM.PUTENTRY", dmn, op.Key, string(encodeEntry(op.Key, op.Val, 0, ts))).Err())
+	case "delbackup":
+		rec.Err = Classify(rdb.Do(ctx, "DM.DELENTRY", dmn, op.Key, "RC").Err())
+	case "merge", "mergebackup":
+		ents := []olric.VerifEntry{{Key: op.Key, Value: []byte(op.Val), Timestamp: ts}}
+		pack, err := olric.VerifFragmentPack(part, op.Tag == "mergebackup", dmn, 1<<16, ents)
+		if err != nil {
+			rec.Err = "other:pack:" + err.Error()
+			return
+		}
+		n := op.Count
+		if n <= 0 {
+			n = 1
+		}
+		for i := 0; i < n; i++ {
+			if err := rdb.Do(ctx, "INTERNAL.NODE.MOVEFRAGMENT", string(pack)).Err(); err != nil {
+				rec.Err = Classify(err)
+				return
+			}
+		}
+		rec.N = n
+	default:
+		rec.Err = "other:unknown plant target " + op.Tag
+	}
 }
